@@ -315,6 +315,68 @@ theorem die_complete_inherited (sqrt : α → α) (st : Option (α × α)) (doc 
       ExactTiling out ∧ Tiling (mkEps sqrt st inp.W inp.H).1 out :=
   die_complete sqrt st doc fixed inp hp hεd hεa (validDie_anti hle hv) picks hacc
 
+/-- **die_output_insensitive** — the decomposition does not depend on the tolerance state inside the separated band:
+    for two histories `st`, `st'` whose distance tolerances are both at most `εmax`, a description valid for `εmax`, and
+    the SAME pick sequence admissible under `st`: it is admissible under `st'` too and both runs of the constructor
+    return the SAME object `out` (same ground, specialised, blockage and fixed lists), an exact tiling.
+    (`gridOf`, the cell matrix and hence everything reported are independent of the tolerance; only the tolerances and
+    the class-wide state returned alongside differ.) -/
+theorem die_output_insensitive (sqrt : α → α) (st st' : Option (α × α)) (doc : YV α) (fixed : List (Rect α))
+    (inp : DieIn α) (hp : parseDie doc = .ok inp) (εmax : α) (hv : ValidDie εmax inp fixed)
+    (h0 : 0 ≤ (mkEps sqrt st inp.W inp.H).1.d) (hle : (mkEps sqrt st inp.W inp.H).1.d ≤ εmax)
+    (ha : 0 ≤ (mkEps sqrt st inp.W inp.H).1.a)
+    (h0' : 0 ≤ (mkEps sqrt st' inp.W inp.H).1.d) (hle' : (mkEps sqrt st' inp.W inp.H).1.d ≤ εmax)
+    (ha' : 0 ≤ (mkEps sqrt st' inp.W inp.H).1.a) (picks : List IRect)
+    (hacc : coverAccept ((gridOf (mkEps sqrt st inp.W inp.H).1 inp fixed).2.length - 1)
+      ((gridOf (mkEps sqrt st inp.W inp.H).1 inp fixed).1.length - 1)
+      (occ (gridOf (mkEps sqrt st inp.W inp.H).1 inp fixed).1 (gridOf (mkEps sqrt st inp.W inp.H).1 inp fixed).2
+        (occRects inp fixed)) picks = true) :
+    coverAccept ((gridOf (mkEps sqrt st' inp.W inp.H).1 inp fixed).2.length - 1)
+      ((gridOf (mkEps sqrt st' inp.W inp.H).1 inp fixed).1.length - 1)
+      (occ (gridOf (mkEps sqrt st' inp.W inp.H).1 inp fixed).1 (gridOf (mkEps sqrt st' inp.W inp.H).1 inp fixed).2
+        (occRects inp fixed)) picks = true ∧
+    ∃ out, dieModel sqrt st doc fixed (some picks) =
+        .ok (out, (mkEps sqrt st inp.W inp.H).1, (mkEps sqrt st inp.W inp.H).2) ∧
+      dieModel sqrt st' doc fixed (some picks) =
+        .ok (out, (mkEps sqrt st' inp.W inp.H).1, (mkEps sqrt st' inp.W inp.H).2) ∧
+      ExactTiling out := by
+  obtain ⟨kv, _, _, _, hW, hH, _⟩ := parseDie_ok doc inp hp
+  have hvi : ValidIn εmax inp.W inp.H (occRects inp fixed) :=
+    ⟨hW, hH, le_trans h0 hle, hv.pos, hv.inside, hv.disjoint, hv.separatedX, hv.separatedY⟩
+  obtain ⟨hacc', out, c1, c2, hin, hpw, hsum, e1, e2⟩ :=
+    dieCore_insensitive (mkEps sqrt st inp.W inp.H).1 (mkEps sqrt st' inp.W inp.H).1 εmax inp fixed hvi h0 h0' hle hle' ha ha'
+      (mkEps_die_pos sqrt st inp.W inp.H hW hH) (mkEps_die_pos sqrt st' inp.W inp.H hW hH) picks hacc
+  refine ⟨hacc', out, ?_, ?_, ⟨by rw [e1, e2]; exact hin, hpw, by rw [e1, e2]; exact hsum⟩⟩
+  · unfold dieModel; simp only [hp, c1]
+  · unfold dieModel; simp only [hp, c2]
+
+/-- … and so does the constructor run with the model's own deterministic cover (`picks = none`): it returns under both
+    histories, with the SAME object. -/
+theorem die_output_insensitive_det (sqrt : α → α) (st st' : Option (α × α)) (doc : YV α) (fixed : List (Rect α))
+    (inp : DieIn α) (hp : parseDie doc = .ok inp) (εmax : α) (hv : ValidDie εmax inp fixed)
+    (h0 : 0 ≤ (mkEps sqrt st inp.W inp.H).1.d) (hle : (mkEps sqrt st inp.W inp.H).1.d ≤ εmax)
+    (ha : 0 ≤ (mkEps sqrt st inp.W inp.H).1.a)
+    (h0' : 0 ≤ (mkEps sqrt st' inp.W inp.H).1.d) (hle' : (mkEps sqrt st' inp.W inp.H).1.d ≤ εmax)
+    (ha' : 0 ≤ (mkEps sqrt st' inp.W inp.H).1.a) :
+    ∃ out, dieModel sqrt st doc fixed none =
+        .ok (out, (mkEps sqrt st inp.W inp.H).1, (mkEps sqrt st inp.W inp.H).2) ∧
+      dieModel sqrt st' doc fixed none =
+        .ok (out, (mkEps sqrt st' inp.W inp.H).1, (mkEps sqrt st' inp.W inp.H).2) ∧
+      ExactTiling out := by
+  obtain ⟨kv, _, _, _, hW, hH, _⟩ := parseDie_ok doc inp hp
+  have hvi : ValidIn (mkEps sqrt st inp.W inp.H).1.d inp.W inp.H (occRects inp fixed) :=
+    ⟨hW, hH, h0, hv.pos, hv.inside, hv.disjoint, hv.separatedX.anti hle, hv.separatedY.anti hle⟩
+  obtain ⟨p, hdet⟩ := detPicks_total (mkEps sqrt st inp.W inp.H).1 inp fixed hvi
+  have hdet' : detPicks (mkEps sqrt st' inp.W inp.H).1 inp fixed = .ok p := by
+    rw [← detPicks_insensitive (mkEps sqrt st inp.W inp.H).1 (mkEps sqrt st' inp.W inp.H).1 εmax inp fixed h0 h0' hle hle'
+      hv.separatedX hv.separatedY]
+    exact hdet
+  have hacc := (detPicks_spec (mkEps sqrt st inp.W inp.H).1 inp fixed).2 p hdet
+  obtain ⟨_, out, r1, r2, ht⟩ := die_output_insensitive sqrt st st' doc fixed inp hp εmax hv h0 hle ha h0' hle' ha' p hacc
+  refine ⟨out, ?_, ?_, ht⟩
+  · unfold dieModel at r1 ⊢; simp only [hp, hdet] at r1 ⊢; exact r1
+  · unfold dieModel at r2 ⊢; simp only [hp, hdet'] at r2 ⊢; exact r2
+
 /-- the deterministic instance used in `model` mode (candidates in list order, first of maximal area) is an instance of
     the relational cover: it never fails for lack of fuel and whatever it returns is an admissible complete pick
     sequence — so `die_sound`, `die_complete` apply to `dieModel … none` as well. -/
